@@ -629,6 +629,80 @@ def oracle_case(case):
     return None
 
 
+# ----------------------------------------------------------------------------------------------- histories on one object
+
+def gen_history(rng, seq):
+    """3-6 related requests (random order, with repeats): each differs from a base request in the shape or value of ONE argument
+    (ion types as str / list / multi-letter internal type / terminal list with the same letters, charges int vs list, ...)"""
+    f, b = rng.choice('abc'), rng.choice('xyz')
+    variants = {
+        'ion_types': [f + b, [f, b], [f + b], [b, f], f, [f], b, [f, b, f + b], 'i', ['i'], [f, 'i'], [b + f]],
+        'charges': [1, [1], 2, [2], [1, 2], [2, 1], 3],
+        'isotopes': [0, [0], 1, [0, 1], [1, 0]],
+        'losses': [None, ['E', -10], [['E', -10]], [['E', -10], ['[ST]', -5]], [['[ST]', -5]], ['[ST]', -5]],
+        'water_loss': [False, True],
+        'ammonia_loss': [False, True],
+        'max_losses': [1, 2],
+        'precision': [None, 3, 0],
+        'return_type': ['fragment', 'mass', 'mz', 'label', 'mass-label', 'mz-label'],
+    }
+    base = {k: rng.choice(v) for k, v in variants.items()}
+    if rng.random() < 0.6:
+        base['ion_types'] = rng.choice([f + b, [f, b]])
+    base['monoisotopic'] = True        # the mass mode belongs to the Fragmenter, set per object
+    pool = [base]
+    for _ in range(rng.randint(2, 4)):
+        r = dict(rng.choice(pool))
+        dim = 'ion_types' if rng.random() < 0.5 else rng.choice(list(variants))
+        r[dim] = rng.choice(variants[dim])
+        pool.append(r)
+    steps = list(pool)
+    while len(steps) < 3:
+        steps.append(rng.choice(pool))
+    for _ in range(rng.randint(0, 2)):
+        steps.append(rng.choice(pool))          # repeats
+    rng.shuffle(steps)
+    return steps[:6]
+
+
+def oracle_history(case):
+    """ONE Fragmenter per peptide driven through a sequence of requests (two objects interleaved when two peptides are given);
+    after every request the answer must be what the stateless fragment() gives for the same arguments on a fresh copy"""
+    import peptacular as pt
+    dumps, monos, steps = case[0], case[1], case[2]
+    with warnings.catch_warnings():
+        warnings.simplefilter('ignore')
+        annots = [annot.undump(d) for d in dumps]
+        frs = [pt.Fragmenter(copy.deepcopy(a), m) for a, m in zip(annots, monos)]
+        for n, (idx, req) in enumerate(steps):
+            kw = call_kwargs(req)
+            kw.pop('monoisotopic')
+            got = frs[idx].fragment(**kw)
+            kw2 = call_kwargs(req)
+            kw2['monoisotopic'] = monos[idx]
+            exp = pt.fragment(copy.deepcopy(annots[idx]), **kw2)
+            if got != exp:
+                i = next((i for i, (x, y) in enumerate(zip(got, exp)) if x != y), min(len(got), len(exp)))
+
+                def show(l):
+                    return repr(l[i])[:160] if i < len(l) else None
+                return (f'HISTORY step {n} (object {idx}, peptide {annots[idx].serialize()!r}, request {json.dumps(req)}): '
+                        f'Fragmenter.fragment returned {len(got)} items, fragment() {len(exp)}; first difference at {i}: '
+                        f'{show(got)} vs {show(exp)}; earlier requests on this object: '
+                        f'{json.dumps([r for j, r in steps[:n] if j == idx])}')
+    return None
+
+
+def answer_text(dump, req):
+    import peptacular as pt
+    with warnings.catch_warnings():
+        warnings.simplefilter('ignore')
+        try:
+            return repr(pt.fragment(annot.undump(dump), **call_kwargs(req)))
+        except ValueError as e:
+            return 'ValueError: ' + str(e)
+
+
 # ----------------------------------------------------------------------------------------------- run
 
 def corpus_cases():
@@ -734,6 +808,9 @@ def run(chk):
         'round(): modelled as round-half-even on the exact rational; implementation values may differ by exactly one unit 10^-p at '
         'ties/double rounding, which the comparison accepts',
         'Fragment.sequence (serialisation of the slice) is compared through annotation dumps; serialisation is property C01',
+        'state on reused objects: the oracle fragmenter_history drives ONE Fragmenter (and two interleaved ones) through 3-6 related '
+        'requests in random order with repeats and compares every answer with the stateless fragment() on a fresh copy; '
+        'fragment_reissued_at_end repeats calls recorded at the start of the run after all other history',
         'argument mutation by fragment() (labile mods popped from the annotation, losses list appended to) belongs to C08: '
         'every call here gets fresh copies',
     ]
@@ -743,6 +820,15 @@ def run(chk):
                 '(random subsets, all 2^16-1 subsets in thorough), charges within 1..4, isotopes within 0..3, water/ammonia/custom '
                 'regex losses, max_losses 1..3, both mass modes, precision None/0..6, six return types, fragment and Fragmenter; '
                 'non-trivial = at least two fragments returned; distinct = distinct protocol line')
+
+    # answers of plain fragment() calls recorded before anything else has run; re-issued at the very end of the run
+    first_answers = []
+    for dump, req in corpus_cases():
+        first_answers.append((dump, req))
+    for _ in range(40 if tier == 'quick' else 300):
+        a = gen_peptide(rng, max_len=8)
+        first_answers.append((annot.dump(a), gen_request(rng, tier, a.sequence)))
+    first_answers = [(d, r, answer_text(d, r)) for d, r in first_answers]
 
     from peptacular.proforma.proforma_parser import ProFormaAnnotation as _PA
     reach = LineReach([fr_mod.get_number, fr_mod.get_label, fr_mod.get_losses, fr_mod._build_fragments, fr_mod._label_shift,
@@ -945,6 +1031,41 @@ def run(chk):
     chk.oracle('fragment_property', ocases, oracle_case,
                nontrivial_fn=lambda c: len(annot.undump(c[0]).sequence) >= 2, key_fn=lambda c: c[0] + json.dumps(c[1], sort_keys=True))
 
+    # ---- state kept on a reused object: one Fragmenter through a sequence of related requests; two objects interleaved
+    hcases = []
+    for _ in range(250 if tier == 'quick' else 3000):
+        a = gen_peptide(rng, ambiguous_p=0.0, min_len=2, max_len=8)
+        two = rng.random() < 0.35
+        dumps = [annot.dump(a)]
+        if two:
+            dumps.append(annot.dump(gen_peptide(rng, ambiguous_p=0.0, min_len=2, max_len=8)))
+        monos = [rng.random() < 0.7 for _ in dumps]
+        reqs = gen_history(rng, a.sequence)
+        if two and rng.random() < 0.5:
+            reqs = reqs + gen_history(rng, a.sequence)[:3]
+        steps = [[rng.randrange(len(dumps)), r] for r in reqs]
+        hcases.append((dumps, monos, steps,
+                       {'peptides': [annot.undump(d).serialize() for d in dumps],
+                        'call': 'objects[i] = peptacular.Fragmenter(peptides[i], monoisotopic[i]); for (i, request) in steps: '
+                                'objects[i].fragment(**request without monoisotopic) must equal '
+                                'peptacular.fragment(peptides[i], monoisotopic=monoisotopic[i], **request)',
+                        'rerun': './check C04 --replay <this file>'}))
+    chk.oracle('fragmenter_history', hcases, oracle_history, nontrivial_fn=lambda c: len(c[2]) >= 3,
+               key_fn=lambda c: json.dumps(c[:3], sort_keys=True))
+    chk.count('history-cases', len(hcases))
+    chk.count('history-steps', sum(len(c[2]) for c in hcases))
+    chk.count('history-two-objects', sum(len(c[0]) == 2 for c in hcases))
+
+    # ---- the calls recorded at the start, re-issued after all the history this run has produced
+    def o_again(c):
+        now = answer_text(c[0], c[1])
+        if now != c[2]:
+            return (f'AGAIN fragment({annot.undump(c[0]).serialize()!r}, **{json.dumps(c[1])}) answered differently at the end of the '
+                    f'run than at its start: {now[:300]} vs {c[2][:300]}')
+        return None
+    chk.oracle('fragment_reissued_at_end', first_answers, o_again, nontrivial_fn=lambda c: len(c[2]) > 2,
+               key_fn=lambda c: c[0] + json.dumps(c[1], sort_keys=True))
+
     chk.notes.append('correspondence + oracle: %.1f s' % (time.time() - t0))
     if tier == 'thorough':
         chk.leanchecker(['PeptVerif.Model.Fragment', 'PeptVerif.Lemmas.Fragment', 'PeptVerif.Lemmas.FragmentMass',
@@ -984,6 +1105,19 @@ def replay(chk, obj):
     if not case:
         print(json.dumps(obj, indent=1))
         return 0
+    if obj.get('oracle') == 'fragmenter_history':
+        r = oracle_history(case)
+        print('peptides:', case[3]['peptides'] if len(case) > 3 else case[0])
+        for i, req in case[2]:
+            print('  object', i, json.dumps(req))
+        print('result  :', 'property holds' if r is None else r)
+        return 0 if r is None else 1
+    if obj.get('oracle') == 'fragment_reissued_at_end':
+        now = answer_text(case[0], case[1])
+        print('peptide :', annot.undump(case[0]).serialize())
+        print('request :', json.dumps(case[1]))
+        print('result  :', 'same answer as recorded' if now == case[2] else 'differs from the recorded answer')
+        return 0 if now == case[2] else 1
     r = oracle_case(tuple(case))
     a = annot.undump(case[0])
     print('peptide :', a.serialize())
